@@ -209,6 +209,67 @@ let suite (mode : int) : string =
       | Stop _ -> ()) chars) states;
   Buffer.contents buf
 
+(* two-step suite: access(s) . c . r . w for every state s, every ASCII character c (and 128, 200, 255) that the model lets
+   pass, every class representative r, and w the completion of the state reached (if any).  A character that the code puts
+   into a different class than the model does can lead to a state that differs only in what it accepts NEXT (the
+   hex-letter flag of an IPv6 group, a pending look-ahead): the one-step suite cannot see that.  Every [stride]-th string,
+   starting at [phase]. *)
+let suite2 (stride : int) (phase : int) : string =
+  let tbl : (ctrl, int list) Hashtbl.t = Hashtbl.create 4096 in
+  let order = ref [] in
+  let q = Queue.create () in
+  Hashtbl.add tbl CStart []; Queue.add CStart q;
+  let atoms = all_atoms in
+  while not (Queue.is_empty q) do
+    let c = Queue.pop q in
+    order := c :: !order;
+    let acc = Hashtbl.find tbl c in
+    List.iter (fun a ->
+      match snd (ptrans c a) with
+      | Go c' -> if not (Hashtbl.mem tbl c') then begin Hashtbl.add tbl c' (int_of_n (atom_rep a) :: acc); Queue.add c' q end
+      | Stop _ -> ()) atoms
+  done;
+  let states = List.rev !order in
+  let comp : (ctrl, int list) Hashtbl.t = Hashtbl.create 4096 in
+  List.iter (fun c -> match snd (pfinish c) with Acc -> Hashtbl.replace comp c [] | StopEnd -> ()) states;
+  let changed = ref true in
+  while !changed do
+    changed := false;
+    List.iter (fun c ->
+      List.iter (fun a ->
+        match snd (ptrans c a) with
+        | Go c' ->
+          (match Hashtbl.find_opt comp c' with
+           | Some w ->
+             let cand = int_of_n (atom_rep a) :: w in
+             (match Hashtbl.find_opt comp c with
+              | Some old when List.length old <= List.length cand -> ()
+              | _ -> Hashtbl.replace comp c cand; changed := true)
+           | None -> ())
+        | Stop _ -> ()) atoms) states
+  done;
+  let chars = List.init 128 (fun i -> i) @ [128; 200; 255] in
+  let buf = Buffer.create (1 lsl 20) in
+  let emit l = Buffer.add_string buf (String.concat "." (List.map (Printf.sprintf "%x") l)); Buffer.add_char buf ';' in
+  let n = ref 0 in
+  List.iter (fun c ->
+    let acc = List.rev (Hashtbl.find tbl c) in
+    List.iter (fun ch ->
+      match snd (ptrans c (atom_of (n_of_int ch))) with
+      | Stop _ -> ()
+      | Go c1 ->
+        List.iter (fun a ->
+          incr n;
+          if !n mod stride = phase then begin
+            let r = int_of_n (atom_rep a) in
+            let s2 = acc @ [ch; r] in
+            emit s2;
+            (match snd (ptrans c1 a) with
+             | Go c2 -> (match Hashtbl.find_opt comp c2 with Some w when w <> [] -> emit (s2 @ w) | _ -> ())
+             | Stop _ -> ())
+          end) atoms) chars) states;
+  Buffer.contents buf
+
 (* ---- RFC 3986 oracle: membership and first dead character (memoised derivatives) ------- *)
 let spec_uri f =
   let l = text_of_field_nn f.(1) in
@@ -517,6 +578,7 @@ let dispatch (f : string array) : string =
      | POk s, POk b -> string_of_int (int_of_n (c10_class (bool_of_field f.(1)) s b))
      | _, _ -> "0")
   | "suite" -> suite (int_of_string f.(1))
+  | "suite2" -> suite2 (int_of_string f.(1)) (int_of_string f.(2))
   | "spec_uri" -> spec_uri f
   | op -> "?unknown-op " ^ op
 
